@@ -347,6 +347,46 @@ CLAIMED['C01'] = dict(
     design_ref="DESIGN.md 5 C01",
 )
 
+CLAIMED['C09'] = dict(
+    technique="Coq proof (the C01 invariant extended with 'every cached value comes from a from-scratch evaluation that "
+              "succeeds', preserved by evaluations that raise; induction over operation histories; a simulation argument "
+              "for the repair) over a hand-transcribed machine model of ExcelCompiler with failing formulas, tied to the "
+              "code by differential runs with fault injection; iterative mode, CSE arrays and the pending-operator-error "
+              "variant by oracle only",
+    text="coq/Model/Fail.v extends the C01 machine (Model/Graph.v) with formulas that raise: fsem n vals = None (a library "
+         "or plugin function raises -> FormulaEvalError) and fpre n = Some k (NameError after the first k precedents are "
+         "read -> UnknownFunction); eval_f transcribes _evaluate/_evaluate_range (nothing is assigned when eval raises, a "
+         "range is abandoned at the first failing member, a dependant formula re-raises FormulaEvalError, a range lets the "
+         "error through), build_f the try/finally loop of _process_gen_graph (new range nodes evaluated in "
+         "reversed(range_todos), the first failure aborts; the order is transcribed as a worklist in gen_order and the "
+         "theorems hold for EVERY order). Proved for EVERY well-formed workbook without stored results, EVERY partial "
+         "semantics, EVERY total completion sem that never computes a blank, EVERY history: C09_inv_preserved (FULL: FInv = "
+         "C01's Inv + soundness holds initially and after every Evaluate/Build — raising or not — and SetValue), "
+         "C09_inv_meaning (no stale value: a cell whose from-scratch evaluation fails is empty), C09_evaluate_outcome "
+         "(evaluate returns iff the from-scratch evaluation succeeds, then that value; the cache changes only at the cell "
+         "and its ancestors, from empty to a from-scratch value), C09_failed_evaluate, C09_unrelated (FULL: after any "
+         "history a cell with no failing cell at or below it returns its from-scratch value), C09_retry and "
+         "C09_retry_deterministic (FULL: after a failed evaluate and any further history whose writes avoid the inputs "
+         "below the cell, the cell and every dependant raise again and stay empty), C09_repair_partial / "
+         "C09_repair_value_partial (PARTIAL: after set_value(failing cell, constant) and any history whose writes avoid "
+         "the PRECEDENTS of that cell, every cell returns/raises exactly as a from-scratch evaluation of the workbook in "
+         "which the cell is an input holding the constant — proved by showing that the machine on W and on that workbook "
+         "coincide step by step). REFUTED (advisory, coq/Refuted/C09_repair_undone.v, known finding "
+         "C09-repair-undone-by-upstream-write): the unrestricted repair clause — the formula stays attached, a write to "
+         "a precedent resets the cell and the failure returns. 9 theorems closed under the global context. Restriction: "
+         "no stored results — REFUTED without it (advisory, coq/Refuted/C09_stored_results.v; reproduced on the "
+         "implementation with an .xlsx that has a cached value for the dependant only: the retry returns the stored "
+         "value; inert predicate C09-stored-partial-retry-returns-stored, reported). ORACLE-ONLY: the error class clause beyond the model's two classes (pending operator error variant, "
+         "repaired in /repo by 38e0ba9), iterative mode (known finding C09-iterative-wip-stuck; C06's model), CSE arrays "
+         "and cycles. Correspondence per quick run: 1200 generated workbooks (C01 generator, often extended by a cell that "
+         "reads 2-3 ranges) with 1-3 cells replaced by an unknown function (whole formula or right operand of +) or a "
+         "plugin function switched between raising/returning or armed to raise from its k-th call, x 8-14 operations "
+         "(evaluate any cell or range, set_value on inputs, repair writes on failing cells): raised-or-returned, the "
+         "pycel error class, the value and the whole cell-map snapshot are compared after every operation (~13000 "
+         "operations, ~1800 failed evaluations); a mutation of the range evaluation order is detected.",
+    design_ref="DESIGN.md 5 C09",
+)
+
 NOT_YET = "check not built yet in this round (planned: DESIGN.md section 7 lists the build order)"
 
 
